@@ -584,4 +584,85 @@ theorem csAudit_ever (base : List Sampling.Card) (num : Nat → Nat) (hnum : Str
     (csInit_inv base num cons0 π) h
   exact ⟨k, by simpa using hk⟩
 
+/-! ### the risk limit of the audit with consistent sampling -/
+
+theorem filter_length_le_of_imp {α : Type} (l : List α) (p q : α → Bool)
+    (h : ∀ x ∈ l, p x = true → q x = true) : (l.filter p).length ≤ (l.filter q).length :=
+  (C10.filter_sublist_of_imp h).length_le
+
+/-- the fraction of the `n!` orders on which the audit is reported complete at some round is at most the
+probability, on the draw tree of the card population, that the p-value of the false assertion is at most the risk
+limit on the used values of some prefix — the event the audit-level risk limits bound -/
+theorem csAudit_fraction_le_hitG (base : List Sampling.Card) (num : List Nat → Nat → Nat)
+    (hnum : ∀ π, StrictMono (num π)) (cons0 : List Sampling.Contest) (hids : (cons0.map (·.id)).Nodup)
+    (val : String → String → Nat → ℚ) (T : String → String → SeqTest)
+    (s : Status.State) (c : Status.Contest) (hc : c ∈ s) (a : Assertion) (ha : a ∈ c.assertions)
+    (policy : List Nat → List CsOut → CsRound)
+    (hpol : ∀ π, π.Perm (List.range base.length) → ∀ seen,
+      SizesOk base (cons0.map (·.id)) c.id (policy π seen).sizes) (K : Nat) :
+    (((orders (List.range base.length)).filter
+        (fun π => csAudit base (num π) cons0 s T val (policy π) K π)).length : ℚ) / (base.length.factorial : ℚ)
+      ≤ hitG (fun h => pLe (T c.id a.name) c.riskLimit (h.filterMap (datum base val c.id a.name)))
+          base.length (List.range base.length) [] := by
+  have hcount := hitG_eq_count
+    (fun h => pLe (T c.id a.name) c.riskLimit (h.filterMap (datum base val c.id a.name))) (List.range base.length)
+  rw [List.length_range] at hcount
+  rw [← hcount]
+  have hpos : (0 : ℚ) < (base.length.factorial : ℚ) := by exact_mod_cast Nat.factorial_pos _
+  apply div_le_div_of_nonneg_right _ hpos.le
+  have := filter_length_le_of_imp (orders (List.range base.length))
+    (fun π => csAudit base (num π) cons0 s T val (policy π) K π)
+    (ever (fun h => pLe (T c.id a.name) c.riskLimit (h.filterMap (datum base val c.id a.name))) [])
+    (fun π hπ h => by
+      have hp : π.Perm (List.range base.length) := mem_orders_perm hπ
+      exact csAudit_ever base (num π) (hnum π) π hp cons0 hids val T s c hc a ha (policy π) (hpol π hp) K h)
+  exact_mod_cast this
+
+/-- `NonnegMean.test` in its documented range on the sub-population of used cards: the probability that its
+p-value is ever at most `alpha` on the used values of a prefix of the draw order is at most `alpha`
+(`hitG_filterMap` + `C01_finite_run`; the middle step of `audit_risk_limit_style_run`) -/
+theorem pLe_style_run_bound {α : Type} (d : α → Option ℚ) (T0 : SeqTest) (alpha : ℚ) (cards : List α)
+    (sqrtF : ℚ → ℚ) (cfg : NM.Cfg) (test : NM.Test)
+    (hN : cfg.N = some (cards.filterMap d).length) (hT : T0 = NM.run sqrtF cfg test)
+    (hdoc : C01.DocumentedFinite sqrtF cfg test) (hr0 : 0 < alpha) (hr1 : alpha < 1)
+    (hrange : ∀ v ∈ cards.filterMap d, 0 ≤ v ∧ v ≤ cfg.u)
+    (hnull : (cards.filterMap d).sum ≤ ((cards.filterMap d).length : ℚ) * cfg.t) :
+    hitG (fun h => pLe T0 alpha (h.filterMap d)) cards.length cards [] ≤ alpha := by
+  rw [hitG_filterMap d (pLe T0 alpha) cards.length cards [] (cards.filterMap d).length (le_refl _) (le_refl _)]
+  have h := C01.C01_finite_run sqrtF cfg _ hN test hdoc alpha hr0 hr1 (cards.filterMap d) rfl hrange hnull
+  simp only [List.filterMap_nil]
+  refine le_trans (hitEv_mono _ _ ?_ _ _ _) h
+  intro dd hd
+  rw [hT] at hd
+  unfold pLe at hd
+  unfold C01.reportedAnyRun C01.reportedAnyOf C01.anyLe
+  cases hTd : NM.run sqrtF cfg test dd with
+  | ok r => rw [hTd] at hd; simp only [Bool.or_eq_true]; exact Or.inl hd
+  | error e => rw [hTd] at hd; cases hd
+
+/-- **Risk limit of the audit with consistent sampling** -/
+theorem consistent_sampling_audit_risk_limit (base : List Sampling.Card) (num : List Nat → Nat → Nat)
+    (hnum : ∀ π, StrictMono (num π)) (cons0 : List Sampling.Contest) (hids : (cons0.map (·.id)).Nodup)
+    (val : String → String → Nat → ℚ) (T : String → String → SeqTest)
+    (s : Status.State) (c : Status.Contest) (hc : c ∈ s) (a : Assertion) (ha : a ∈ c.assertions)
+    (policy : List Nat → List CsOut → CsRound)
+    (hpol : ∀ π, π.Perm (List.range base.length) → ∀ seen,
+      SizesOk base (cons0.map (·.id)) c.id (policy π seen).sizes) (K : Nat)
+    (sqrtF : ℚ → ℚ) (cfg : NM.Cfg) (test : NM.Test)
+    (hN : cfg.N = some ((List.range base.length).filterMap (datum base val c.id a.name)).length)
+    (hT : T c.id a.name = NM.run sqrtF cfg test)
+    (hdoc : C01.DocumentedFinite sqrtF cfg test)
+    (hr0 : 0 < c.riskLimit) (hr1 : c.riskLimit < 1)
+    (hrange : ∀ v ∈ (List.range base.length).filterMap (datum base val c.id a.name), 0 ≤ v ∧ v ≤ cfg.u)
+    (hnull : ((List.range base.length).filterMap (datum base val c.id a.name)).sum
+      ≤ (((List.range base.length).filterMap (datum base val c.id a.name)).length : ℚ) * cfg.t) :
+    (((orders (List.range base.length)).filter
+        (fun π => csAudit base (num π) cons0 s T val (policy π) K π)).length : ℚ) / (base.length.factorial : ℚ)
+      ≤ c.riskLimit := by
+  refine le_trans (csAudit_fraction_le_hitG base num hnum cons0 hids val T s c hc a ha policy hpol K) ?_
+  have := pLe_style_run_bound (datum base val c.id a.name) (T c.id a.name) c.riskLimit (List.range base.length)
+    sqrtF cfg test hN hT hdoc hr0 hr1 hrange hnull
+  rw [List.length_range] at this
+  exact this
+
 end Shangrla.RiskLimit
